@@ -27,6 +27,8 @@ type Scenario struct {
 	// (with MaxAge = 1 each tick can time out running transactions).
 	Ticks    int
 	MaxBound int
+	// PersistAfter: the persister thread first waits for that many successful commits.
+	PersistAfter int
 	// Admin: schema changes run by an extra "admin" thread, in order.
 	Admin []AdminOp
 	// Heavy scenarios (3 clients: the free choices at blocking points multiply)
@@ -48,20 +50,22 @@ type AdminOp struct {
 
 // TranRec is what one executed transaction observed.
 type TranRec struct {
-	Client, Seq  int
-	Script       Tran
-	Obs          []string // one per executed op
-	Aborted      bool     // an op reported the transaction aborted
-	ExplAbort    bool
-	Complete     string // result of Complete(); "-" if not called
-	Start, End   int    // checker sequence numbers (End = MaxInt if not committed)
-	HasUpdates   bool
-	StepLo       int // scheduler step before the start call
-	StepHi       int // scheduler step after the start call returned
-	DoneStep     int // scheduler step at which Complete() returned
-	Snapshot     *db19.DbState
-	committed    bool
-	wroteSomeRow bool
+	Client, Seq int
+	Script      Tran
+	Obs         []string // one per executed op
+	Aborted     bool     // an op reported the transaction aborted
+	ExplAbort   bool
+	Complete    string // result of Complete(); "-" if not called
+	Start, End  int    // checker sequence numbers (End = MaxInt if not committed)
+	HasUpdates  bool
+	StepLo      int // scheduler step before the start call
+	StepHi      int // scheduler step after the start call returned
+	DoneStep    int // scheduler step at which Complete() returned
+	// AbortedThenCompleted: the script called Abort() and then Complete()
+	AbortedThenCompleted bool
+	Snapshot             *db19.DbState
+	committed            bool
+	wroteSomeRow         bool
 }
 
 func (tr *TranRec) String() string {
@@ -97,20 +101,23 @@ type Oracles struct {
 }
 
 type exec struct {
-	sc       *Scenario
-	or       Oracles
-	db       *db19.Database
-	init     MDB
-	trans    []*TranRec
-	states   []pubState
-	last     *db19.DbState
-	final    *db19.DbState
-	fail     *sched.Failure
-	oldAge   int
-	started  bool
-	adminObs []string
-	sync     bool // synchronous tier: no scheduler, steps counted by the driver
-	syncStep int
+	sc                  *Scenario
+	or                  Oracles
+	db                  *db19.Database
+	init                MDB
+	trans               []*TranRec
+	states              []pubState
+	last                *db19.DbState
+	final               *db19.DbState
+	fail                *sched.Failure
+	oldAge              int
+	started             bool
+	nFinished, nWaiting int // clients that are done / blocked in a wait op
+	adminObs            []string
+	nCommitted          int  // successfully completed update transactions so far
+	persistDone         bool // the persister thread's forced persist returned
+	sync                bool // synchronous tier: no scheduler, steps counted by the driver
+	syncStep            int
 }
 
 // now is the logical time used to relate transactions to published states.
@@ -162,6 +169,7 @@ func (x *exec) Main() {
 		wg.Add(1)
 		vsched.GoNamed(fmt.Sprintf("client%d", ci), false, func() {
 			defer wg.Done()
+			defer func() { x.nFinished++ }()
 			for si, s := range scripts {
 				x.runTran(ci, si, s)
 			}
@@ -190,7 +198,11 @@ func (x *exec) Main() {
 		wg.Add(1)
 		vsched.GoNamed("persister", false, func() {
 			defer wg.Done()
+			if n := x.sc.PersistAfter; n > 0 {
+				vsched.WaitUntil("wait-commits", func() bool { return x.nCommitted >= n || x.nFinished+x.nWaiting >= len(x.sc.Clients) })
+			}
 			x.db.Persist()
+			x.persistDone = true
 		})
 	}
 	wg.Wait()
@@ -198,6 +210,27 @@ func (x *exec) Main() {
 	vsched.NoPreempt(true)
 	x.final = x.db.Persist()
 	vsched.NoPreempt(false)
+}
+
+// wait blocks the calling client until the named harness event happened (or all
+// other clients are done, so that a scenario can never deadlock on it).
+func (x *exec) wait(o Op) {
+	ev := ""
+	if len(o.Vals) > 0 {
+		ev = o.Vals[0]
+	}
+	x.nWaiting++
+	defer func() { x.nWaiting-- }()
+	vsched.WaitUntil("wait-"+ev, func() bool {
+		if ev == "persist" {
+			return x.persistDone
+		}
+		var n int
+		if _, err := fmt.Sscanf(ev, "commits:%d", &n); err == nil {
+			return x.nCommitted >= n
+		}
+		return true
+	})
 }
 
 func (x *exec) runTran(ci, si int, s Tran) {
@@ -208,6 +241,11 @@ func (x *exec) runTran(ci, si int, s Tran) {
 		rt := x.db.NewReadTran()
 		tr.StepHi = x.now()
 		for _, o := range s.Ops {
+			if o.Kind == OpWait {
+				x.wait(o)
+				tr.Obs = append(tr.Obs, "ok")
+				continue
+			}
 			tr.Obs = append(tr.Obs, ExecReal(rt, nil, o))
 		}
 		tr.Complete = rt.Complete()
@@ -217,8 +255,17 @@ func (x *exec) runTran(ci, si int, s Tran) {
 	tr.StepHi = x.now()
 	tr.Snapshot = ut.VerifSnapshot()
 	for _, o := range s.Ops {
+		if o.Kind == OpWait {
+			x.wait(o)
+			tr.Obs = append(tr.Obs, "ok")
+			continue
+		}
 		obs := ExecReal(ut, ut, o)
 		tr.Obs = append(tr.Obs, obs)
+		if o.Kind == OpAbortGoOn {
+			tr.AbortedThenCompleted = true
+			break
+		}
 		if obs == ErrAborted {
 			tr.Aborted = true
 			break
@@ -237,6 +284,9 @@ func (x *exec) runTran(ci, si int, s Tran) {
 	if !tr.Aborted && !tr.ExplAbort {
 		tr.Complete = ut.Complete()
 		tr.DoneStep = x.now()
+		if tr.Complete == "" {
+			x.nCommitted++
+		}
 	}
 	tr.Start, tr.End = ut.VerifStartEnd()
 	tr.HasUpdates = ut.VerifHasUpdates()
@@ -471,6 +521,16 @@ func (x *exec) judge(obs *strings.Builder) (string, *sched.Failure) {
 	finalContent := Content(x.db, x.final)
 	fmt.Fprintf(obs, "final=%s", finalContent.Canon())
 	cs := x.committedInOrder()
+
+	// a transaction whose Abort() returned must never commit
+	if x.or.Atomic || x.or.Serializable {
+		for _, tr := range x.trans {
+			if tr.AbortedThenCompleted && tr.Complete == "" {
+				return obs.String(), &sched.Failure{Msg: fmt.Sprintf(
+					"transaction %s was aborted (Abort() returned) and its later Complete() reported success", tr)}
+			}
+		}
+	}
 
 	// ---- write-log replay: model state after each commit (C03 / C16 / C07 / final)
 	models := []MDB{x.init.Clone()}
